@@ -154,3 +154,66 @@ def local_alias_map(func: FuncInfo):
                 if isinstance(x, ast.Name):
                     counts[x.id] = counts.get(x.id, 0) + 2
     return {k: v for k, v in exprs.items() if counts.get(k) == 1}
+
+
+def _pure_chain(e):
+    while isinstance(e, ast.Attribute):
+        e = e.value
+    return isinstance(e, ast.Name)
+
+
+def expand_aliases(func: FuncInfo, expr):
+    """Replace locals bound exactly once to an attribute chain (`p = self.rule.path`) by that
+    chain, so that hoisting a receiver into a local does not change what a rule sees.  Only sound
+    for chains whose links are not reassigned in between; the rules using it look at attributes
+    set once in the constructor."""
+    amap = {k: v for k, v in local_alias_map(func).items() if isinstance(v, ast.Attribute) and _pure_chain(v)}
+    if not amap:
+        return expr
+
+    class Sub(ast.NodeTransformer):
+        def visit_Name(self, n):
+            if n.id in amap and isinstance(n.ctx, ast.Load):
+                return Sub().visit(copy.deepcopy(amap[n.id]))
+            return n
+    return Sub().visit(copy.deepcopy(expr))
+
+
+def modifier_effect(prog: Program, meth: FuncInfo):
+    """What a zero-argument path-modifier method does, read off its flattened body:
+    ('ok', FIELD, 'Enum.MEMBER') when it returns a fresh shallow copy of self on which exactly
+    one field was stored from an enum member; otherwise ('bad', reason)."""
+    from ..flatten import flat
+    f = flat(prog, meth)
+    if len(f.params) != 1:
+        return ("bad", "takes arguments")
+    selfname = f.params[0].name
+    fresh = {}
+    for n in ast.walk(f.node):
+        if isinstance(n, ast.Assign) and len(n.targets) == 1 and isinstance(n.targets[0], ast.Name) and isinstance(n.value, ast.Call) \
+                and ast.unparse(n.value.func) in ("copy.copy", "copy") and len(n.value.args) == 1 and ast.unparse(n.value.args[0]) == selfname:
+            fresh[n.targets[0].id] = n
+    stores = []
+    for n in ast.walk(f.node):
+        tg = n.targets if isinstance(n, ast.Assign) else ([n.target] if isinstance(n, (ast.AugAssign, ast.AnnAssign)) else [])
+        for t in tg:
+            for x in ast.walk(t):
+                if isinstance(x, ast.Attribute) and isinstance(x.ctx, ast.Store):
+                    stores.append((x, n))
+                elif isinstance(x, ast.Subscript) and isinstance(x.ctx, ast.Store):
+                    stores.append((x, n))
+        if isinstance(n, ast.Call) and isinstance(n.func, ast.Name) and n.func.id in ("setattr", "delattr"):
+            return ("bad", f"dynamic store `{ast.unparse(n)}`")
+    rets = [n for n in ast.walk(f.node) if isinstance(n, ast.Return)]
+    if not fresh:
+        return ("bad", "no fresh `copy.copy(self)`")
+    if len(stores) != 1:
+        return ("bad", f"{len(stores)} stores (exactly one expected)")
+    tgt, st = stores[0]
+    if not (isinstance(tgt, ast.Attribute) and isinstance(tgt.value, ast.Name) and tgt.value.id in fresh):
+        return ("bad", f"store `{ast.unparse(st)}` is not on the fresh copy")
+    if not rets or not all(r.value is not None and isinstance(r.value, ast.Name) and r.value.id == tgt.value.id for r in rets):
+        return ("bad", "does not return the fresh copy on every path")
+    if not isinstance(st, ast.Assign):
+        return ("bad", "augmented store")
+    return ("ok", tgt.attr, ast.unparse(st.value))
